@@ -189,7 +189,9 @@ Proof.
     + unfold inv. cbn [detect visited]. split; assumption.
     + pose proof (NoDup_incl_length Hnd' Hincl') as Hlen.
       rewrite dom_length, app_length in Hlen. cbn [length] in Hlen.
+      remember (phi h c) as p0 eqn:Ep0. clear Ep0.
       unfold phi in Hphi1 |- *. rewrite Hd in Hphi1. cbn [detect visited].
+      change (visited (deeper THRESH c)) with (visited c) in *.
       rewrite app_length. cbn [length]. lia.
   - intros [= <-]. split; [assumption|]. now apply deeper_strict.
 Qed.
@@ -225,7 +227,7 @@ Proof.
   - destruct (enter_progress h c0 a c' Hinv0 (hlookup_dom _ _ _ El) He) as [Hinv' Hlt].
     apply IH; [assumption|lia].
   - destruct (enter_progress h c0 a c' Hinv0 (hlookup_dom _ _ _ El) He) as [Hinv' Hlt].
-    apply hbind_fuel; [|intros b; destruct (k =? 2)%N; discriminate].
+    clear El. apply hbind_fuel; [|intros b; destruct (k =? 2)%N; discriminate].
     induction items as [|x r IHr]; [discriminate|].
     apply hbind_fuel; [apply IH; [assumption|lia]|].
     intros ts. apply hbind_fuel; [exact IHr|discriminate].
@@ -407,7 +409,7 @@ Definition ex_dag : heap :=
    (2, CVal (VStruct [VInt; VPtr None]))].
 
 Definition ex_rk (a : addr) : nat :=
-  match a with 0 => 3 | 1 => 2 | 3 => 1 | _ => 0 end%nat.
+  match a with 0 => 3%nat | 1 => 2%nat | 3 => 1%nat | _ => 0%nat end.
 
 Lemma ex_dag_ranked : ranked ex_rk ex_dag.
 Proof.
